@@ -48,9 +48,14 @@ def run_list(M, cmds):
     return ok
 
 
+INVALID = ('(a', '[a', '(b', 'a\\(')
+
+
 def model_glob(M, loc, pat, negate, cmds, nested=False):
     if not M.n():
         raise mx.Reject('empty')
+    if pat in INVALID:
+        raise mx.Reject('pattern does not compile')
     a, b = M.region(loc if (loc or nested) else '%')
     ast = mx.parse_simple_re(pat)
     ids = [l.id for l in M.lines[a - 1:b]]
@@ -70,6 +75,11 @@ def gen_list(R, depth=0):
     """command list; returns (structured list, needs_text_blocks)"""
     k = R.random()
     tag = R.choice('!+#=~')
+    if k < 0.05:
+        # a command that fails in front of one that succeeds: only the LAST command's status decides whether the scan goes on
+        first = R.choice([{'cmd': 'd', 'loc': '+9'}, {'cmd': 'd', 'loc': '-9'}, {'cmd': 's', 'loc': '', 'pat': 'x', 'rep': 'X', 'g': False}, {'cmd': 'pu', 'loc': '', 'arg': 'z'},
+                          {'cmd': 's', 'loc': '+9', 'pat': '$', 'rep': '?', 'g': False}])
+        return [first, {'cmd': 's', 'loc': '', 'pat': '$', 'rep': tag, 'g': False}]
     if k < 0.16:
         return [{'cmd': 'd', 'loc': ''}]
     if k < 0.30:
@@ -149,6 +159,7 @@ def run_case(args):
         loc = R.choice(['', '%'])
     pre = b'1y a\n' if R.random() < 0.5 else b''
     first = None
+    badfirst = []
     if not big and R.random() < 0.15:
         # an earlier global that inserts lines and is then stopped by a failing last command: whatever it had marked
         # and not yet visited must mean nothing to the next global
@@ -158,11 +169,27 @@ def run_case(args):
             [{'cmd': 'y', 'loc': '', 'arg': ''}, {'cmd': 'pu', 'loc': '', 'arg': ''}, {'cmd': 'pu', 'loc': '', 'arg': 'a'}, {'cmd': 's', 'loc': '+99', 'pat': '$', 'rep': '!', 'g': False}],
             [{'cmd': 'pu', 'loc': '-1', 'arg': 'a'}, {'cmd': 'd', 'loc': '-99'}]]))
         pre += ('%sg/%s/%s\n' % (first[0], first[1], render_list(first[2]))).encode()
+    if not big and first is None and R.random() < 0.12:
+        # earlier globals whose pattern does not compile (top level or nested): they do nothing and leave nothing behind
+        pre = pre or b''
+        for _ in range(R.choice([1, 1, 2, 7, 8])):
+            fp = R.choice([('', '(a', [{'cmd': 'd', 'loc': ''}]), ('', '[a', [{'cmd': 'd', 'loc': ''}]),
+                           ('', R.choice(PATS), [{'cmd': 'g', 'loc': '', 'pat': '(b', 'list': [{'cmd': 'd', 'loc': ''}]}])])
+            badfirst.append(fp)
+            pre += ('%sg/%s/%s\n' % (fp[0], fp[1], render_list(fp[2]))).encode()
     gcmd = ('%s%s/%s/%s\n' % (loc, 'v' if neg else 'g', pat, render_list(cmds))).encode()
     # model first (to know how many text blocks the executions will read)
     M = mx.Ex(lines, icase=True)
-    if pre:
+    if pre.startswith(b'1y a'):
         M._do('1', 'y', 'a', None)
+    for fp in badfirst:
+        try:
+            model_glob(M, fp[0], fp[1], False, fp[2])
+        except mx.Reject:
+            pass
+        except (mx.Unknown, mr.Budget, RecursionError, ValueError):
+            return ('cut', None, None, 0)
+        M.cur = max(0, min(M.cur, M.n() - 1))
     if first:
         try:
             model_glob(M, first[0], first[1], False, first[2])
